@@ -22,6 +22,8 @@ def gen(rng, tier):
     for c, seed, path in DIRECTED:
         for k in range(len(path) + 1):
             yield Case("derive", [c, seed, nats(path[:k]), k], "directed")
+            if k < len(path):     # the same vector with the object converted to public-only after k steps (public derivation, or its refusal)
+                yield Case("derive", [c, seed, nats(path), k], "directed-public")
     # seed length refusal
     for c in CURVES:
         for ln in (0, 1, 15):
